@@ -42,8 +42,9 @@ let digest (xs : int list) =
 let rec longer l n = match l with [] -> false | _ :: r -> n = 0 || longer r (n - 1)
 let show_ints scale l = if scale && longer l digest_over then "#" ^ digest l else str_ints l
 
-(* round 4: Sp Sa Sf Sz = pointer / interface / float64 / struct{} elements (Sz has the one code 0) *)
-let is_scale kind = String.length kind = 2 && kind.[0] = 'S' && String.contains "ixstpafz" kind.[1]
+(* round 4: Sp Sa Sf Sz = pointer / interface / float64 / struct{} elements (Sz has the one code 0);
+   round 5: So Sb Sh Sg = bool (codes 0 1) / uint8 / int16 / float32 *)
+let is_scale kind = String.length kind = 2 && kind.[0] = 'S' && String.contains "ixstpafzobhg" kind.[1]
 let parse_case inp =
   match words inp with
   | [kind; k; ops] when is_scale kind || List.mem kind ["X"; "B"; "H"] ->
@@ -239,6 +240,11 @@ let spec_case scale k ops out =
       let fields = String.split_on_char '/' o in
       let res = List.hd fields and dumps = List.tl fields in
       if res = "?" then go (n + 1) ops' outs' else
+      (* "!" behind a result: the harness found the argument it handed in (item slice, the cells
+         around a window, argument map, round 5: the list of operands of Intersect and the spare cell
+         behind it) changed after the call *)
+      if String.length res > 1 && res.[String.length res - 1] = '!' && res.[0] <> 'P' then
+        fail n p "the callee wrote to its argument: the operand list / item slice / argument map differs from what was handed in" else
       let v a = let i = int_of' (nth_arg p a) in if i < 0 || i >= k then raise Bad_syntax else i in
       let l a = ints_of' (nth_arg p a) in
       let lnil a = if nth_arg p a = "nil" then [] else l a in
